@@ -25,7 +25,7 @@ impl SubscriptionName {
     pub fn try_parse(unparsed: &str) -> Option<Self> {
         // Check that the length of the input is at least as long as something that contains
         // a valid subscription name.
-        if unparsed.len() <= PROJECT_PREFIX_LEN + SUBSCRIPTION_PREFIX_LEN + 2 {
+        if unparsed.len() < PROJECT_PREFIX_LEN + SUBSCRIPTION_PREFIX_LEN + 2 {
             return None;
         }
 
@@ -38,9 +38,20 @@ impl SubscriptionName {
         let project_id = unparsed.get(PROJECT_PREFIX_LEN..)?;
         let project_id = project_id.get(..project_id.find('/')?)?;
 
+        // The project ID must be followed by the subscription prefix.
+        let start = PROJECT_PREFIX_LEN + project_id.len();
+        if !unparsed.get(start..)?.starts_with(SUBSCRIPTION_PREFIX) {
+            return None;
+        }
+
         // Extract the subscription ID
-        let start = PROJECT_PREFIX_LEN + project_id.len() + SUBSCRIPTION_PREFIX_LEN;
+        let start = start + SUBSCRIPTION_PREFIX_LEN;
         let subscription_id = unparsed.get(start..).map(|s| s.trim_matches('/'))?;
+
+        // Neither ID may be empty.
+        if project_id.is_empty() || subscription_id.is_empty() {
+            return None;
+        }
 
         Some(SubscriptionName {
             project_id: project_id.into(),
